@@ -108,6 +108,7 @@ fn harper_core_run_on_chunk(pl: &PL, toks: &[Token], source: &[char]) -> Vec<Lin
     harper_core::linting::run_on_chunk(pl, toks, source)
 }
 
+#[derive(Clone)]
 pub struct RunInput {
     pub text: String,
     pub front: String,
@@ -132,8 +133,8 @@ impl Worker {
         let names = self.rule_names.clone();
         self.groups.entry((cfg.to_string(), dialect)).or_insert_with(|| {
             let d = front::dialects()[dialect % 4];
-            let mut lg = front::curated_group(d);
-            if cfg == "all" {
+            let mut lg = if cfg == "user" { LintGroup::new_curated(front::user_merged(), d) } else { front::curated_group(d) };
+            if cfg == "all" || cfg == "user" {
                 lg.set_all_rules_to(Some(true));
             } else if let Some(r) = cfg.strip_prefix("one:") {
                 lg.set_all_rules_to(Some(false));
@@ -161,7 +162,7 @@ pub fn run_one(w: &mut Worker, inp: &RunInput) -> Value {
     }
     let lg = w.group(&inp.cfg, inp.dialect);
     let r = catch(|| {
-        let doc = front::doc_with(&inp.text, &parser);
+        let doc = if inp.cfg == "user" { front::doc_with_dict(&inp.text, &parser, &front::user_merged()) } else { front::doc_with(&inp.text, &parser) };
         lg.lint(&doc).len()
     });
     let ms = t0.elapsed().as_millis() as u64;
@@ -271,7 +272,7 @@ pub fn build_inputs(a: &Args, rng: &mut Rng) -> Vec<RunInput> {
         let t = inputs::token_soup(rng);
         let fr = if i % 3 == 0 { rng.pick(&fronts[..]).clone() } else { ["plain", "markdown"][i % 2].to_string() };
         let text = if fr == "plain" || fr == "markdown" { t } else { inputs::wrap_front(&fr, &t, rng) };
-        v.push(RunInput { text, front: fr, wrap: if i % 9 == 0 { 3 } else { 0 }, cfg: "all".into(), dialect: i % 4, src: "soup" });
+        v.push(RunInput { text, front: fr, wrap: if i % 9 == 0 { 3 } else { 0 }, cfg: if i % 4 == 1 { "user".into() } else { "all".into() }, dialect: i % 4, src: "soup" });
     }
     // ... and soups while they are being typed: every prefix, with and without a blank behind it
     for i in 0..a.num("soup-prefixes", 60) as usize {
@@ -281,6 +282,9 @@ pub fn build_inputs(a: &Args, rng: &mut Rng) -> Vec<RunInput> {
             v.push(RunInput { text: p.clone(), front: ["plain", "markdown"][i % 2].into(), wrap: 0, cfg: "curated".into(), dialect: 0, src: "soup-prefix" });
             if n % 5 == 0 { v.push(RunInput { text: format!("{p} "), front: "plain".into(), wrap: 0, cfg: "curated".into(), dialect: 0, src: "soup-prefix" }); }
         }
+    }
+    for (i, t) in inputs::glued_pairs().into_iter().enumerate() {
+        v.push(RunInput { text: t, front: if i % 4 == 0 { "markdown".into() } else { "plain".into() }, wrap: 0, cfg: if i % 5 == 2 { "user".into() } else { "all".into() }, dialect: i % 4, src: "glued" });
     }
     for adv in inputs::adversarial() {
         for fr in &fronts {
@@ -373,6 +377,19 @@ pub fn main(a: &Args) {
                     "front": inp.front, "wrap": inp.wrap, "cfg": inp.cfg, "dialect": inp.dialect,
                     "ms": timeout, "out": "timeout", "nlints": 0, "loc": "", "text": inp.text}));
             }
+        }
+    }
+    // fresh threads: whatever a thread keeps between calls (thread-local scratch buffers, automata, memos) is
+    // sized by the first text it sees; each of these texts is the FIRST thing a new thread checks, with the
+    // merged dictionary (user words of many lengths) and letters whose case mapping changes their length
+    let firsts = ["İstanbul", "We visited İstanbul today.", "ǅungla", "STRAßE", "ŉ", "ﬁnal ﬂight", "İİİİİİİİ", "a", "zq",
+        "abcdefghijklmnopq", "shipParcle", "Zzyzxqq here", "ǅ", "İzmir'e", "O'Zzyzxx", "İ"];
+    for (k, t) in firsts.iter().enumerate() {
+        for (fr, cfg) in [("plain", "user"), ("markdown", "user"), ("plain", "all")] {
+            let inp = RunInput { text: t.to_string(), front: fr.into(), wrap: 0, cfg: cfg.into(), dialect: k % 4, src: "fresh-thread" };
+            let inp2 = inp.clone();
+            let h = std::thread::Builder::new().stack_size(16 << 20).spawn(move || { let mut w = Worker::new(); run_one(&mut w, &inp2) }).unwrap();
+            match h.join() { Ok(e) if !e.is_null() => out.emit(&e), _ => {} }
         }
     }
     println!("{}", json!({"events": out.finish()}));
